@@ -123,10 +123,10 @@ var propSpecs = map[string]*PropSpec{
 	},
 	"C17": {
 		ID: "C17", Title: "Titles and bodies come back exactly as they went in", Exclude: cat(txLabels, jsonLabels),
-		Funcs:     cat([]string{"buildSetEvents", "applySetUpdates$1", "createTaskWithDir$1", "applyLegacyTitleMigration", "buildTaskShowOutput", "(*TaskInput).GetTitle", "(*TaskInput).GetBody", "buildFlagUpdates", "newEvent", "validateTransition", "validateClaimInvariant", "writeAll", "appendEvents", "writeEventsFile", "compactEvents", "sortedTasks$1", "sortedTasks", "sortedMapKeys", "sortedKeys"}, replayFuncs),
+		Funcs:     cat([]string{"buildSetEvents", "applySetUpdates$1", "createTaskWithDir$1", "applyLegacyTitleMigration", "buildTaskShowOutput", "(*TaskInput).GetTitle", "(*TaskInput).GetBody", "buildFlagUpdates", "readBodyFromStdinOrEmpty", "RunNewTask", "RunNewEpic", "createTaskWithDir", "createTask", "withCurrentState", "newEvent", "validateTransition", "validateClaimInvariant", "writeAll", "appendEvents", "writeEventsFile", "compactEvents", "sortedTasks$1", "sortedTasks", "sortedMapKeys", "sortedKeys"}, replayFuncs),
 		Bounded:   []string{"textRoundTrip"},
 		Technique: "contract-based deductive verification of identity dataflow: the create section puts title and body into the event unchanged; the set builder emits trimSpace(title) and the body verbatim; one iteration of the real replay loop copies the event's text into the addressed item and leaves every other item's text alone, for every event type; a created item carries the create event's text; the legacy-title migration is proved a no-op on titled items; show copies the fields; JSON encoding itself is trusted and exercised by a bounded stand-in through the real chain",
-		Assume:    []string{"encoding/json round trip on strings (trusted table); BOUNDED stand-in: every string of 1..2 (thorough: 1..3) code points over 32 troublemakers (quotes, backslash, NUL, control, <>&, U+2028/9, BOM, U+FFFD, plane-1/16, combining) plus two strings of several hundred kilobytes through newEvent -> appendEvents -> readEvents -> replayEvents -> show JSON", "the command entry points (which input mode trims) are covered for flags (buildFlagUpdates) and JSON getters; RunNewTask/RunSet wiring is under contract for C10/C16 only"},
+		Assume:    []string{"encoding/json round trip on strings (trusted table); BOUNDED stand-in: every string of 1..2 (thorough: 1..3) code points over 32 troublemakers (quotes, backslash, NUL, control, <>&, U+2028/9, BOM, U+FFFD, plane-1/16, combining) plus two strings of several hundred kilobytes through newEvent -> appendEvents -> readEvents -> replayEvents -> show JSON", "the command entry points (which input mode trims) are covered for flags (buildFlagUpdates), JSON getters and the --body-stdin helper (returns the bytes on stdin verbatim; io.ReadAll assumed); new task/new epic with --body-stdin are proved to create the item with exactly those bytes as body ([body-stdin-verbatim]); RunSet's wiring of the stdin body into the update map is under contract for C10/C16 only"},
 	},
 	"C18": {
 		ID: "C18", Title: "Every command finds the same store, and init never hides data", Exclude: cat(txLabels, jsonLabels),
